@@ -422,7 +422,7 @@ def unit_contract(code, factor_num, factor_den):
                        frame_fields_kept(f, fields=("offset", "homeOffset", "absoluteMode")))
         c.ensures("C08.units-set-natives-kept", post, props=("C08", "C03", "C02", "C09"))
         c.ensures("Inv-preserved", lambda f: And(inv_all(f.self.state, f.g["P"]), inv_e(f.self.state, f.g["P"])),
-                  props=("C01", "C02", "C03", "C04", "C08"))
+                  props=("C01", "C02", "C03", "C04", "C08", "C09"))
         c.ensures("C02.transparent", lambda f: Implies(J(f.old.self.state), J(f.self.state)), props=("C02",))
 
 
@@ -445,7 +445,7 @@ def mode_contract(code, absolute):
             return And(f.result is None, xyz, e, natives_kept(f), frame_fields_kept(f, fields=("offset", "homeOffset", "unitMultiplier")))
         c.ensures("C08.mode-set-natives-kept", post, props=("C08", "C03", "C02", "C09"))
         c.ensures("Inv-preserved", lambda f: And(inv_all(f.self.state, f.g["P"]), inv_e(f.self.state, f.g["P"])),
-                  props=("C01", "C02", "C03", "C04", "C08"))
+                  props=("C01", "C02", "C03", "C04", "C08", "C09"))
         c.ensures("C02.transparent", lambda f: Implies(J(f.old.self.state), J(f.self.state)), props=("C02",))
 
 
